@@ -349,14 +349,15 @@ def _run_proc(cmd, batch_path, timeout, env=None, case_timeout=None):
     return results, None, ("ok",)
 
 
-def run_batch(cfg, cases, shards=None, timeout=600, wrapper=None, env=None, keep_order=True):
+def run_batch(cfg, cases, shards=None, timeout=600, wrapper=None, env=None, keep_order=True, cmd=None, case_timeout=None):
     """Run cases on the runner built in configuration cfg, sharded over processes.
     Every case gets a result dict; abnormal ends are attributed to exactly one case:
     result['abort'] = {'why': 'signal'|'exit'|'timeout', ...}."""
     if not cases:
         return []
-    exe = binary(cfg)
-    cmd = (wrapper or []) + [exe]
+    if cmd is None:
+        exe = binary(cfg)
+        cmd = (wrapper or []) + [exe]
     shards = min(shards or NCPU, len(cases))
     groups = [[] for _ in range(shards)]
     # contiguous blocks keep "kept Vm" histories together; round-robin balances load: use blocks
@@ -377,7 +378,7 @@ def run_batch(cfg, cases, shards=None, timeout=600, wrapper=None, env=None, keep
                     for c in group:
                         f.write(encode_case(c))
                 procs.append((gi, group, path))
-            outs = _parallel(cmd, procs, timeout, env)
+            outs = _parallel(cmd, procs, timeout, env, case_timeout)
             nxt = []
             for (gi, group, path), (res, begun, status) in zip(procs, outs):
                 for r in res:
@@ -410,10 +411,10 @@ def run_batch(cfg, cases, shards=None, timeout=600, wrapper=None, env=None, keep
     return [results[c["id"]] for c in cases]
 
 
-def _parallel(cmd, procs, timeout, env):
+def _parallel(cmd, procs, timeout, env, case_timeout=None):
     import concurrent.futures
     with concurrent.futures.ThreadPoolExecutor(max_workers=max(1, min(len(procs), NCPU))) as ex:
-        futs = [ex.submit(_run_proc, cmd, path, timeout, env) for (_, _, path) in procs]
+        futs = [ex.submit(_run_proc, cmd, path, timeout, env, case_timeout) for (_, _, path) in procs]
         return [f.result() for f in futs]
 
 
